@@ -352,6 +352,17 @@ theorem sc_decodes_equal_partial (c : CodecImpl) (conv : List Int → List Int) 
     (h : scBuild c ts pi ba x = .ok o) : scDecode c conv ts o = .ok x.data :=
   sc_native_decodes c conv ts pi ba x o hwf hts hpi h12 h
 
+/-- **A secondary capture read through highdicom's own readers** (`get_stored_frame`, `get_stored_frames`, the pixel transform
+behind `get_frame`, `ImageFileReader.read_frame`: each hands `decode_frame` the data set's attributes -- C07's `tie_call_sites`
+over the regenerated call sites T13g -- and its own frame index) gives the array as well, whatever index is passed; same
+partiality as `sc_decodes_equal_partial`. -/
+theorem sc_readers_return_array_partial (c : CodecImpl) (conv : List Int → List Int) (ts pi : String) (ba : Int) (x : Frame)
+    (o : SCObject) (hwf : x.WF) (hts : ts ∈ nativeSyntaxes) (hpi : pi ≠ "YBR_FULL") (h12 : ba ≠ 12)
+    (h : scBuild c ts pi ba x = .ok o) (index : Int) :
+    readFrame c conv (o.module ts) o.frameBytes index = .ok x.data := by
+  rw [sc_readers_eq_decode c conv ts pi ba x o h index]
+  exact sc_native_decodes c conv ts pi ba x o hwf hts hpi h12 h
+
 /-- **Counterexample to the full `sc_decodes_equal`** (open finding C19-sc-bits-allocated-12): every secondary
 capture `SCImage` builds with `bits_allocated = 12` in a native syntax -- and it builds one from every 2-D uint16
 array -- carries Bits Allocated 12, which pydicom's decoder refuses: the stored pixels cannot be read back. -/
@@ -546,5 +557,9 @@ example (o : PMObject) (h : build exampleInput = .ok o) :
         · exact absurd hk (by decide))
     (by intro i k j; rfl) (by decide) (by decide)]
   decide +kernel
+/-- the 1x3 uint16 capture read through a reader with frame index 0 and with a stray index -/
+example (o : SCObject) (h : scBuild noCodec "1.2.840.10008.1.2.1" "MONOCHROME2" 16 ⟨1, 3, none, .u16, [1, 4095, 256]⟩ = .ok o) :
+    readFrame noCodec id (o.module "1.2.840.10008.1.2.1") o.frameBytes 3 = .ok [1, 4095, 256] :=
+  sc_readers_return_array_partial noCodec id _ _ 16 _ o (by unfold Frame.WF; decide) (by decide) (by decide) (by decide) h 3
 
 end HdVerif.C19
